@@ -188,6 +188,8 @@ func checkC07(c *Ctx) {
 	c07ReconnectPaced(c, fns)
 	c07OnceComplete(c, fns)
 	c07SendVsClose(c, fns)
+	// a stream the server ends makes the reader close every pending channel: a call that also closes its own panics
+	c08SingleCloser(c, fns)
 	c06IndexGuard(c, fns, "R-index-guard")
 	c07AnswerNonNil(c, fns)
 
